@@ -265,6 +265,8 @@ def check_level0_provenance(ctx):
 
 
 def check(ctx):
+    from . import c01 as _c01c
+    _c01c.check_level0_closure(ctx)   # repair puts every table into level 0: compactions there take the whole overlap chain
     from . import tablefmt as _tf3
     _tf3.check_policy_wrapping(ctx)   # filters are built and probed over user keys
     check_every_log_converted(ctx)
